@@ -278,6 +278,26 @@ def scripted_clause_check():
         fails.append({"fingerprint": "C05:accepted-step-damped", "clause": "accepted step undamped (automatic)",
                       "detail": {"errors": [1.0, 2.0, 1e-6], "alpha_in_force_for_accepted_step": tr[-1][0], "niter": n},
                       "replay": {"case": {"scripted": "w1"}}})
+    # "NaN never counts as converged": every placement of a NaN in the last observation (any variable's change, or the
+    # residual) with everything else far inside the tolerances, both damping methods, 1-3 variables
+    nan = float("nan")
+    for automatic in (False, True):
+        for nv in (1, 2, 3):
+            for pos in range(nv + 1):
+                errs = [1e-12] * nv
+                resid = 0.0
+                if pos < nv:
+                    errs[pos] = nan
+                else:
+                    resid = nan
+                for pre in ([], [(0.0, [1e-1] * nv)]):
+                    obs = pre + [(resid, list(errs))] * 3
+                    c, n, a, tr = run_real(obs, nv, automatic, len(pre) + 1, 1)
+                    if c:
+                        fails.append({"fingerprint": "C05:nan-counts-as-converged", "clause": "NaN never counts as converged",
+                                      "detail": {"automatic": automatic, "variables": nv, "nan_at": "residual" if pos == nv else pos,
+                                                 "iterations_before": len(pre), "converged": True},
+                                      "replay": {"case": {"scripted": "nan"}}})
     w2 = [(0.0, [1.0, 1e-9]), (0.0, [1e-6, 2e-9])]
     c, n, a, tr = run_real(w2, 2, True, 10, 1)
     if c and any(tr[-1][2]):
